@@ -239,6 +239,8 @@ LEXICAL_FORMS = [
     ("xs:time", "12:00:00.25Z", ["v", "time", "12:00:00.250000", 0.0]), ("xs:time", "23:59:59", ["v", "time", "23:59:59", None]),
     ("xs:hexBinary", "0aFF", ["v", "HexBinary", "0aff"]), ("xs:hexBinary", "", ["v", "HexBinary", ""]),
     ("xs:base64Binary", "YWJj", ["v", "Base64Binary", "616263"]), ("xs:base64Binary", "YQ==", ["v", "Base64Binary", "61"]),
+    ("xs:base64Binary", "YWJj ZGVm", ["v", "Base64Binary", "616263646566"]), ("xs:base64Binary", "YWJj\nZGVm", ["v", "Base64Binary", "616263646566"]),
+    ("xs:base64Binary", "YW Jj ZG Vm", ["v", "Base64Binary", "616263646566"]),
     ("xs:gYear", "2020Z", ["v", "GYear", {"year": 2020}, 0.0]), ("xs:gMonth", "--05", ["v", "GMonth", {"month": 5}, None]),
     ("xs:gDay", "---15+02:00", ["v", "GDay", {"day": 15}, 7200.0]), ("xs:gYearMonth", "2020-05", ["v", "GYearMonth", {"year": 2020, "month": 5}, None]),
     ("xs:gMonthDay", "--05-15Z", ["v", "GMonthDay", {"month": 5, "day": 15}, 0.0]),
@@ -343,9 +345,17 @@ def check_object_all(obj, case: dict, only_variant: Optional[str] = None) -> Lis
     if d:
         return [C.Failing(f"write:json:mapping:{d[0]}", f"SDK JSON differs from the specification's mapping for {type(obj).__name__}: {d[1][:200]}",
                           dict(case, dir="write"))]
+    # ---- instances of application-defined subclasses are written under the metamodel class they specialise
+    if only_variant is None:
+        f = subclass_check(obj, key, V, sdk_doc, buf.getvalue(), case)
+        if f:
+            return [f]
     # ---- reading direction: spec-valid forms are accepted and yield the prescribed data
     rng = random.Random(f"C05variant:{case['seed']}:{case['index']}")
     exp0 = canon.canon(obj)
+    if only_variant is None or only_variant.startswith("xml-"):
+        for f in xml_surface_checks(buf.getvalue(), exp0, V, rng, case, only_variant):
+            found.append(f)
     for variant in VARIANTS:
         if only_variant is not None and variant != only_variant:
             continue
@@ -373,6 +383,107 @@ def check_object_all(obj, case: dict, only_variant: Optional[str] = None) -> Lis
             found.append(C.Failing(f"read:json:differs:{variant}", f"data read from a spec-written document differs ({variant}): {dd[:200]}",
                                    dict(case, dir="read", variant=variant)))
     return found
+
+
+def subclass_check(obj, key, V, sdk_doc, sdk_xml: bytes, case) -> Optional[C.Failing]:
+    """re-class every element of the tree as an instance of a fresh subclass of its class (what an application does that
+    derives its own element classes) — the documents written must be the same, byte for byte"""
+    from basyx.aas import model
+    from basyx.aas.adapter.json import AASToJsonEncoder
+    from basyx.aas.adapter.xml import write_aas_xml_file
+    touched = []
+
+    def walk(o):
+        if isinstance(o, model.Referable):
+            touched.append((o, o.__class__))
+            try:
+                o.__class__ = type("App" + type(o).__name__, (type(o),), {})
+            except TypeError:
+                touched.pop()
+            if isinstance(o, model.UniqueIdShortNamespace):
+                for ch in o:
+                    walk(ch)
+    walk(obj)
+    try:
+        doc = {key: [json.loads(json.dumps(obj, cls=AASToJsonEncoder))]}
+        buf = io.BytesIO()
+        write_aas_xml_file(buf, model.DictObjectStore([obj]))
+        xml = buf.getvalue()
+    except Exception as e:
+        return C.Failing(f"write:subclass:raises:{type(e).__name__}", f"writing a tree of subclass instances raised {e!r}"[:250], dict(case, dir="write"))
+    finally:
+        for o, c in touched:
+            o.__class__ = c
+    if doc != sdk_doc:
+        d = json_diff(sdk_doc[key][0], doc[key][0]) or ("?", "documents differ")
+        return C.Failing(f"write:json:subclass:{d[0]}", f"JSON written for instances of application-defined subclasses differs: {d[1][:200]}",
+                         dict(case, dir="write"))
+    if xml != sdk_xml:
+        return C.Failing("write:xml:subclass", "XML written for instances of application-defined subclasses differs", dict(case, dir="write"))
+    return None
+
+
+XML_SURFACES = ["xml-cdata", "xml-charref", "xml-entity", "xml-comment"]
+
+
+def xml_surface_checks(sdk_xml: bytes, expected, V, rng: random.Random, case, only: Optional[str]) -> List[C.Failing]:
+    """the same XML infoset in other lexical clothes (CDATA section, numeric character references, an internal general entity,
+    comments between elements): schema-valid like the original, and the strict reader must yield the same data"""
+    from lxml import etree
+    from basyx.aas.adapter.xml import read_aas_xml_file
+    from vf import canon
+    out: List[C.Failing] = []
+    root = etree.fromstring(sdk_xml)
+    leaves = [e for e in root.iter() if isinstance(e.tag, str) and len(e) == 0 and e.text and "]]>" not in e.text]
+    if not leaves:
+        return out
+    for surface in XML_SURFACES:
+        if only is not None and surface != only:
+            continue
+        r2 = etree.fromstring(sdk_xml)
+        l2 = [e for e in r2.iter() if isinstance(e.tag, str) and len(e) == 0 and e.text and "]]>" not in e.text]
+        tgt = l2[rng.randrange(len(l2))]
+        text = tgt.text
+        doctype = ""
+        if surface == "xml-comment":
+            tgt.getparent().insert(0, etree.Comment(" note "))
+            data = etree.tostring(r2, xml_declaration=True, encoding="utf-8")
+        else:
+            tgt.text = "@@VFTOKEN@@"
+            raw = etree.tostring(r2, encoding="unicode")
+            if surface == "xml-cdata":
+                if "\r" in text:
+                    continue                           # a CDATA section cannot carry a carriage return (line-end normalisation)
+                rep = "<![CDATA[" + text + "]]>"
+            elif surface == "xml-charref":
+                rep = "".join(f"&#x{ord(ch):X};" for ch in text)
+            else:
+                k = rng.randint(0, len(text))
+                part = text[k:]
+                esc = "".join(f"&#x{ord(ch):X};" for ch in part)          # entity value: character references are expanded on declaration
+                doctype = f'<!DOCTYPE x [<!ENTITY vf "{esc}">]>'
+                rep = "".join(f"&#x{ord(ch):X};" for ch in text[:k]) + "&vf;"
+            data = ('<?xml version="1.0" encoding="utf-8"?>' + doctype + raw.replace("@@VFTOKEN@@", rep)).encode("utf-8")
+        try:
+            doc = etree.fromstring(data)
+        except etree.XMLSyntaxError:
+            continue                                   # our own rewriting produced something lxml does not take: not judged
+        if surface != "xml-entity" and not V["xml"].validate(doc):
+            continue
+        try:
+            got = list(read_aas_xml_file(io.BytesIO(data), failsafe=False))
+        except Exception as e:
+            out.append(C.Failing(f"read:xml:rejected:{surface}", f"strict XML reader rejects an equivalent document ({surface}): "
+                                 f"{type(e).__name__}: {str(e)[:160]}", dict(case, dir="read", variant=surface)))
+            continue
+        if len(got) != 1:
+            out.append(C.Failing(f"read:xml:count:{surface}", f"{len(got)} identifiables read", dict(case, dir="read", variant=surface)))
+            continue
+        dd = canon.diff(expected, canon.canon(got[0]))
+        if dd:
+            out.append(C.Failing(f"read:xml:differs:{surface}", f"data read from an equivalent XML document differs ({surface}): {dd[:200]}",
+                                 dict(case, dir="read", variant=surface)))
+    return out
 
 
 def json_diff(a, b, path="") -> Optional[Tuple[str, str]]:
